@@ -74,7 +74,7 @@ def _is_boolish(e):
         f = e.func
         if isinstance(f, ast.Name) and f.id in ('isinstance', 'any', 'all', 'callable', 'hasattr', 'issubclass'):
             return True
-        if isinstance(f, ast.Attribute) and f.attr in ('any', 'all', 'issparse'):
+        if isinstance(f, ast.Attribute) and f.attr in ('any', 'all', 'issparse', 'isnan', 'isinf', 'isfinite'):
             return True
     return False
 
